@@ -22,6 +22,7 @@ AsIvs(runs) == [i \in 1..Len(runs) |-> <<runs[i][1], runs[i][2]>>]
 Observers(ev, want) ==
   Bad(ev.obs_fault = 0 /\ ev.it_fault = 0, "C08", "an observer crashed")
   \cup Bad(ev.card = Size(want), "C08", "cardinality differs from the set's size")
+  \cup Bad(ev.scard = Size(want), "C08", "cardinality reported by the statistics differs from the set's size")
   \cup Bad((ev.empty = 1) = (want = Empty), "C08", "IsEmpty differs from the set")
   \cup Bad(AsIvs(ev.ivs) = want /\ ev.n = Size(want), "C08", "array export differs from the set (content, order or duplicates)")
   \cup Bad(AsIvs(ev.it_ivs) = want /\ ev.it_n = Size(want), "C08", "iteration differs from the set (content, order or duplicates)")
